@@ -41,6 +41,7 @@ pub fn assumptions() -> Vec<String> {
         "history cases: a builder is configured with a first assignment, one of {check_ref, check on a copy, the training entry point} runs on it (outcome ignored), then the same builder (or a clone taken afterwards) is re-configured through its setters; verdict, error text, checked value, builder equality and training result must equal those of a fresh builder configured directly with the second assignment. Parameters that can only be given to the constructor (k-means / GMM n_clusters, DBSCAN / OPTICS min_points) are equal in both assignments. The first training run only happens when the first assignment lies in the trainable intervals",
         "SVM history cases with an odd seed: the first life selects the other of the two mutually exclusive variants (Nu 0.4 resp. C weights (7, 3), always valid) with the solver eps / Platt values of the first assignment; the setter under test must displace it (checked value: the other variant must read back as None, as the setters' code and the 'either C or Nu' docs promise). The valid/invalid label of the first assignment of those cases refers to the row's own table and is approximate for the non-trivial count",
         "enum / bool valued builder options are extra dimensions of every row that has them (k-means init method, DBSCAN / OPTICS nearest-neighbour algorithm, GMM init method, elastic-net / logistic with_intercept, Tweedie link and fit_intercept, SVM kernel and shrinking, tree split quality and max depth, hierarchical linkage method, PLS algorithm and scale, FastICA gfunc, count vectoriser convert_to_lowercase and normalize); they have no range of their own, the expected verdict comes from the numeric table only, i.e. it must be independent of them. No doc comment states a cross-constraint between an option and a numeric range (PLS: 'max_iterations ... when algorithm=Nipals. Ignored otherwise' says the value is ignored, not that it is unchecked). Training is not run with SVM shrinking (C13's subject), with the k-means|| initialisation (not reproducible from run to run, C20's subject) nor with an explicit identity / logit Tweedie link",
+        "order cases: every setter / builder-transforming call of a row (GMM and random-projection with_rng, FTRL rng, DBSCAN / OPTICS dist_fn and nn_algo, SVM with_platt_params / with_kernel_params / kernel shortcuts / shrinking, and all plain setters) is one step of a chain; the chain is applied in a generated permutation and the result must equal the canonical order's (every call writes its own field; the mutually exclusive ones - SVM C / Nu variant, projection dim / eps, hierarchical criterion, tokenizer - occur once per chain). Constructor arguments always come first. The non-trivial rule of order cases is the one of the underlying plain / history case; permutations that happen to be the identity are not filtered out",
         "count vectoriser tokenizer parameter: 0 = default regex, 1 = the regex \\b[^ ][^ ]+\\b, 2 = the invalid regex '[' (documented: 'Returns an error if the regex expression for the split is invalid'), 3 = a function tokenizer",
         "linfa_clustering::AppxDbscan is an alias of Dbscan in the pinned tree (its own hyperparams module is not compiled), so it has no separate row",
     ]
